@@ -10,6 +10,8 @@ import (
 	"crypto/x509/pkix"
 	"fmt"
 
+	"github.com/zmap/zcrypto/encoding/asn1"
+
 	"github.com/zmap/zlint/v3"
 	"github.com/zmap/zlint/v3/lint"
 )
@@ -122,12 +124,68 @@ func init() {
 			certsTried++
 			tgts = append(tgts, tgt{cc, s, e, resultsOf(zlint.LintCertificate(cc.Cert)), resultsOf(zlint.LintCertificate(cc.Cert))})
 		}
+		// variants 100..103 are "self-similar" signatures: octets taken from the certificate's own to-be-signed part
+		// (its tail with the extensions, its head, every extension OID followed by BOOLEAN FALSE / TRUE, every
+		// extension's complete encoding) - what a reader that searches the encoding instead of parsing it would trip over
+		vlist := []int{}
 		for v := 0; v < variants; v++ {
-			for _, t := range tgts {
+			vlist = append(vlist, v)
+		}
+		vlist = append(vlist, 100, 101, 102, 103)
+		for _, v := range vlist {
+			for ti, t := range tgts {
 				cc, s, e, base, base2 := t.cc, t.s, t.e, t.base, t.base2
+				if v >= 100 && tier() != "thorough" && ti%3 != (v-100)%3 {
+					continue
+				}
 				mut := append([]byte{}, cc.DER...)
 				kind := ""
+				fill := func(src []byte) {
+					if len(src) == 0 {
+						src = []byte{0}
+					}
+					for i := s; i < e; i++ {
+						mut[i] = src[(i-s)%len(src)]
+					}
+				}
+				tbs := cc.Cert.RawTBSCertificate
 				switch v {
+				case 100:
+					kind = "own-tbs-tail"
+					if len(tbs) > e-s {
+						fill(tbs[len(tbs)-(e-s):])
+					} else {
+						fill(tbs)
+					}
+				case 101:
+					kind = "own-tbs-head"
+					fill(tbs)
+				case 102:
+					kind = "own-extension-oids-with-boolean"
+					var frag []byte
+					for xi, x := range cc.Cert.Extensions {
+						if oid, err := asn1.Marshal(x.Id); err == nil {
+							frag = append(frag, oid...)
+							if xi%2 == 0 {
+								frag = append(frag, 0x01, 0x01, 0x00)
+							} else {
+								frag = append(frag, 0x01, 0x01, 0xff)
+							}
+							frag = append(frag, 0x04, 0x02, 0x05, 0x00)
+						}
+					}
+					fill(frag)
+				case 103:
+					kind = "own-extensions-flipped-critical"
+					var frag []byte
+					for _, x := range cc.Cert.Extensions {
+						y := x
+						y.Critical = !x.Critical
+						if b, err := asn1.Marshal(y); err == nil {
+							frag = append(frag, b...)
+						}
+					}
+					fill(frag)
 				case 0:
 					kind = "zeros"
 					for i := s; i < e; i++ {
